@@ -1,4 +1,5 @@
 import Ezc3dVerif.Proofs.Steps
+import Ezc3dVerif.Proofs.Post
 /-
   C05 — header, POINT/ANALOG parameters and stored data always agree.
   Every public mutator ends with `updateHeader` (directly, or through `updateParameters`). These theorems
@@ -159,5 +160,166 @@ theorem reach_Mand (F : FloatOps) (ops : List Op) (s : C3D) (hM : Mand s.groups)
       simp only [hs] at hrest ⊢
       exact ih s hM hrest
     | ub k => simp only; exact hM
+
+/-! ### the three views agree after every successful data mutator -/
+
+/-- THE AGREEMENT OF C05, with the first stored frame as the witness of the data:
+    header ⟷ parameters (`HP`: point count, rate, channel count, samples per frame, frame count, sub-frame count),
+    exact analog words (`HdrInv`), and parameters ⟷ data (POINT:FRAMES = stored frames, POINT:USED = points of the first
+    frame, ANALOG:USED = channels of its first sub-frame) -/
+structure Agree (F : FloatOps) (s : C3D) : Prop where
+  hp : HP F s.groups s.frames s.hdr
+  exact : HdrInv s.hdr
+  nframes : ∃ fr, int0 s.groups POINT FRAMES = .ok fr ∧ intToU64 fr = s.frames.length
+  used : ∀ f0 t, s.frames = f0 :: t → ∃ u, int0 s.groups POINT USED = .ok u ∧ intToU64 u = f0.pts.length
+  aused : ∀ f0 t sf0 r, s.frames = f0 :: t → f0.subs = sf0 :: r → ∃ u, int0 s.groups ANALOG USED = .ok u ∧ intToU64 u = sf0.length
+
+/-- sizes within the range of the library's `int` conversions (2^31 frames, points, channels; 2^32 sub-frames) -/
+structure Small (frames : List Frame) (ol oa np na : List Bytes) : Prop where
+  nfr : frames.length < two31
+  npt : nPointNames frames ol np < two31
+  nch : nChannelNames frames oa na < two31
+  nsub : ∀ f0 t, frames = f0 :: t → f0.subs.length < two32
+
+theorem agree_of_updateParameters (F : FloatOps) (s s' : C3D) (np na ol oa : List Bytes)
+    (hol : strsOf s.groups POINT LABELS = .ok ol) (hoa : strsOf s.groups ANALOG LABELS = .ok oa)
+    (hi : HdrInv s.hdr) (hF : ∀ a b, F.ratioNat a b < two32) (hs : Small s.frames ol oa np na)
+    (h : updateParameters F s np na = .ok s') : Agree F s' := by
+  obtain ⟨hfr, hp, hinv, hnf, hu, hau⟩ := updateParameters_post F s s' np na ol oa hol hoa hi hF hs.nfr hs.npt hs.nch hs.nsub h
+  refine ⟨hp, hinv, by rw [hfr]; exact hnf, ?_, ?_⟩
+  · intro f0 t hft
+    rw [hfr] at hft
+    obtain ⟨u, h1, h2⟩ := hu
+    exact ⟨u, h1, by rw [h2]; simp [nPointNames, pointNames, hft]⟩
+  · intro f0 t sf0 r hft hsf
+    rw [hfr] at hft
+    obtain ⟨u, h1, h2⟩ := hau
+    exact ⟨u, h1, by rw [h2]; simp [nChannelNames, channelNames, hft, hsf]⟩
+
+/-- AFTER EVERY SUCCESSFUL FRAME / POINT / CHANNEL MUTATOR — append, replace or extend a frame, declare a point or a
+    channel, add a point or channel column — from ANY state whose mandatory parameters are in place and whose header has
+    exact analog words (every reachable state: `init_Mand`, `reach_Mand`, `Agree.exact`), the three views agree. This is an
+    intermediate-state statement: it holds after each call of a history, whatever the order of the calls. -/
+theorem mutator_agree (F : FloatOps) (s s' : C3D) (op : Op) (hM : Mand s.groups) (hi : HdrInv s.hdr)
+    (hF : ∀ a b, F.ratioNat a b < two32)
+    (hop : ∀ g p, op ≠ .parameter g p) (hl : ∀ g, op ≠ .lockGroup g) (hu : ∀ g, op ≠ .unlockGroup g)
+    (hs : ∀ ol oa np na, strsOf s.groups POINT LABELS = .ok ol → strsOf s.groups ANALOG LABELS = .ok oa →
+            (np = [] ∨ ∃ n, op = .point n ∧ np = [n]) → (na = [] ∨ ∃ n, op = .analog n ∧ na = [n]) → Small s'.frames ol oa np na)
+    (h : step F s op = .ok s') : Agree F s' := by
+  obtain ⟨ol, hol⟩ := hM.strs POINT LABELS mem_slots_PL
+  obtain ⟨oa, hoa⟩ := hM.strs ANALOG LABELS mem_slots_AL
+  cases op with
+  | parameter g p => exact absurd rfl (hop g p)
+  | lockGroup g => exact absurd rfl (hl g)
+  | unlockGroup g => exact absurd rfl (hu g)
+  | frame f idx =>
+    obtain ⟨fr, _, hup⟩ := frame_ok_inv h
+    have hfr := updateParameters_frames hup
+    exact agree_of_updateParameters F ({ s with frames := fr } : C3D) s' [] [] ol oa hol hoa hi hF (by rw [← hfr]; exact hs ol oa [] [] hol hoa (Or.inl rfl) (Or.inl rfl)) hup
+  | pointCols fs =>
+    obtain ⟨fr, hup⟩ := pointCols_ok_inv h
+    have hfr := updateParameters_frames hup
+    exact agree_of_updateParameters F ({ s with frames := fr } : C3D) s' [] [] ol oa hol hoa hi hF (by rw [← hfr]; exact hs ol oa [] [] hol hoa (Or.inl rfl) (Or.inl rfl)) hup
+  | analogCols fs =>
+    obtain ⟨fr, hup⟩ := analogCols_ok_inv h
+    have hfr := updateParameters_frames hup
+    exact agree_of_updateParameters F ({ s with frames := fr } : C3D) s' [] [] ol oa hol hoa hi hF (by rw [← hfr]; exact hs ol oa [] [] hol hoa (Or.inl rfl) (Or.inl rfl)) hup
+  | point n =>
+    simp only [step, C3D.point] at h
+    split at h
+    · obtain ⟨fr, hup⟩ := pointCols_ok_inv h
+      have hfr := updateParameters_frames hup
+      exact agree_of_updateParameters F ({ s with frames := fr } : C3D) s' [] [] ol oa hol hoa hi hF (by rw [← hfr]; exact hs ol oa [] [] hol hoa (Or.inl rfl) (Or.inl rfl)) hup
+    · have hfr := updateParameters_frames h
+      exact agree_of_updateParameters F s s' [n] [] ol oa hol hoa hi hF
+        (by rw [← hfr]; exact hs ol oa [n] [] hol hoa (Or.inr ⟨n, rfl, rfl⟩) (Or.inl rfl)) h
+  | analog n =>
+    simp only [step, C3D.analog] at h
+    split at h
+    · obtain ⟨fr, hup⟩ := analogCols_ok_inv h
+      have hfr := updateParameters_frames hup
+      exact agree_of_updateParameters F ({ s with frames := fr } : C3D) s' [] [] ol oa hol hoa hi hF (by rw [← hfr]; exact hs ol oa [] [] hol hoa (Or.inl rfl) (Or.inl rfl)) hup
+    · have hfr := updateParameters_frames h
+      exact agree_of_updateParameters F s s' [] [n] ol oa hol hoa hi hF
+        (by rw [← hfr]; exact hs ol oa [] [n] hol hoa (Or.inl rfl) (Or.inr ⟨n, rfl, rfl⟩)) h
+
+/-- the agreement, spelled out on a state that stores data: the words of the property -/
+theorem agree_counts (F : FloatOps) (s : C3D) (h : Agree F s) (f0 : Frame) (t : List Frame) (hft : s.frames = f0 :: t) :
+    (∃ u, int0 s.groups POINT USED = .ok u ∧ s.hdr.nbPoints = intToU64 u ∧ intToU64 u = f0.pts.length) ∧
+    (∃ fr, int0 s.groups POINT FRAMES = .ok fr ∧ intToU64 fr = s.frames.length ∧
+        (¬ (s.hdr.nbPoints = 0 ∧ s.hdr.nbAnalogs = 0) → s.hdr.nbFrames = s.frames.length)) ∧
+    (∀ sf0 r, f0.subs = sf0 :: r →
+        s.hdr.nbAnalogByFrame = f0.subs.length ∧
+        ∃ au, int0 s.groups ANALOG USED = .ok au ∧ s.hdr.nbAnalogs = intToU64 au ∧ intToU64 au = sf0.length ∧
+          s.hdr.nbAnalogsMeas = sf0.length * f0.subs.length) ∧
+    (∃ r, float0 s.groups POINT RATE = .ok r ∧ F.rateKey s.hdr.rate = F.rateKey r) := by
+  refine ⟨?_, ?_, ?_, h.hp.rate⟩
+  · obtain ⟨u, h1, h2⟩ := h.used f0 t hft
+    obtain ⟨u', h1', h2'⟩ := h.hp.points
+    rw [h1] at h1'; cases h1'
+    exact ⟨u, h1, h2', h2⟩
+  · obtain ⟨fr, h1, h2⟩ := h.nframes
+    refine ⟨fr, h1, h2, fun hne => ?_⟩
+    obtain ⟨fr', h1', h2'⟩ := h.hp.nframes hne
+    rw [h1] at h1'; cases h1'
+    rw [h2', h2]
+  · intro sf0 r hsf
+    have hne : f0.subs.length ≠ 0 := by rw [hsf]; simp
+    have habf := h.hp.subs f0 t hft hne
+    refine ⟨habf, ?_⟩
+    obtain ⟨au, h1, h2, h3⟩ := h.hp.analogs (by rw [habf]; exact hne)
+    obtain ⟨au', h1', h2'⟩ := h.aused f0 t sf0 r hft hsf
+    rw [h1] at h1'; cases h1'
+    exact ⟨au, h1, h2, h2', by rw [h3, h2', habf]⟩
+
+/-- base case: a new object agrees (no data; header and parameters all zero) and its analog words are exact -/
+theorem init_HdrInv : HdrInv C3D.init.hdr := ⟨by decide, by decide, by decide⟩
+
+/-- non-vacuity: the hypotheses of `mutator_agree` hold for a new object and a float model, the call `point "P"` succeeds
+    on it, and the resulting state agrees -/
+def F1 : FloatOps := { rateKey := fun b => b.toNat, truncNat := fun b => b.toNat, ratioNat := fun a b => a.toNat / (b.toNat + 1) }
+
+theorem F1_ratio (a b : UInt32) : F1.ratioNat a b < two32 := by
+  have h1 : a.toNat / (b.toNat + 1) ≤ a.toNat := Nat.div_le_self _ _
+  have h2 : a.toNat < 4294967296 := UInt32.toNat_lt a
+  show a.toNat / (b.toNat + 1) < two32
+  unfold two32; omega
+
+def okNoFrames : Outcome C3D → Bool
+  | .ok s' => s'.frames.isEmpty
+  | _ => false
+theorem init_point_ok : okNoFrames (step F1 C3D.init (.point [80])) = true := by decide +kernel
+theorem init_point_frames : (match step F1 C3D.init (.point [80]) with | .ok s' => s'.frames = [] | _ => False) := by
+  have := init_point_ok
+  cases hs : step F1 C3D.init (.point [80]) with
+  | ok s' => rw [hs] at this; simpa [okNoFrames] using this
+  | throw e l => rw [hs] at this; simp [okNoFrames] at this
+  | ub k => rw [hs] at this; simp [okNoFrames] at this
+
+example : ∃ s', step F1 C3D.init (.point [80]) = .ok s' := by
+  have := init_point_frames
+  split at this
+  · exact ⟨_, ‹_›⟩
+  · exact absurd this id
+
+example (s' : C3D) (h : step F1 C3D.init (.point [80]) = .ok s') : Agree F1 s' := by
+  have hfr : s'.frames = [] := by
+    have := init_point_frames
+    rw [h] at this; exact this
+  refine mutator_agree F1 C3D.init s' (.point [80]) init_Mand init_HdrInv F1_ratio (by intro g p hc; cases hc) (by intro g hc; cases hc)
+    (by intro g hc; cases hc) ?_ h
+  intro ol oa np na hol hoa hnp hna
+  have e1 : strsOf C3D.init.groups POINT LABELS = .ok [] := by decide
+  have e2 : strsOf C3D.init.groups ANALOG LABELS = .ok [] := by decide
+  rw [e1] at hol; cases hol
+  rw [e2] at hoa; cases hoa
+  rw [hfr]
+  refine ⟨by decide, ?_, ?_, by intro f0 t hc; cases hc⟩
+  · rcases hnp with rfl | ⟨n, _, rfl⟩
+    · decide
+    · show 1 < two31; decide
+  · rcases hna with rfl | ⟨n, _, rfl⟩
+    · decide
+    · show 1 < two31; decide
 
 end Ezc3d.C05
